@@ -106,6 +106,25 @@ func checkRow(r *FillRow, variant int, rev bool) string {
 	if !utf8.ValidString(res.out) {
 		return "invalid-utf8"
 	}
+	if variant == 0 && !rev {
+		// a bar filler with a single tip frame has no memory: what it draws for these statistics does not depend on
+		// the frames it has drawn before (full progress with a refill mark; the same counters under another total)
+		full := st
+		full.Total = max(st.Total, 1)
+		full.Current, full.Refill = full.Total, full.Total/2
+		other := st
+		other.Total = st.Total + 1
+		for k, earlier := range []decor.Statistics{full, other} {
+			f2 := bs.Build()
+			if r1 := callFill(f2, earlier); r1.hung {
+				continue
+			}
+			if r2 := callFill(f2, st); !r2.hung && r2.out != res.out {
+				return fmt.Sprintf("after an earlier frame (%d: total %d current %d refill %d) the same statistics draw %q, a fresh filler draws %q",
+					k, earlier.Total, earlier.Current, earlier.Refill, r2.out, res.out)
+			}
+		}
+	}
 	if w := runewidth.StringWidth(res.out); w != r.Out {
 		return fmt.Sprintf("width %d, specification %d (%q)", w, r.Out, res.out)
 	}
